@@ -802,8 +802,9 @@ def main():
     import translate_driver
     import translate_diff
     import translate_validate
+    import translate_common
     failed = {}
-    ERR = (Unsupported, translate_pyx.Unsupported, translate_walk.Unsupported, translate_eq.Unsupported, translate_indx.Unsupported, translate_strides.Unsupported, translate_missing.Unsupported, translate_driver.Unsupported, translate_diff.Unsupported, translate_validate.Unsupported,
+    ERR = (Unsupported, translate_pyx.Unsupported, translate_walk.Unsupported, translate_eq.Unsupported, translate_indx.Unsupported, translate_strides.Unsupported, translate_missing.Unsupported, translate_driver.Unsupported, translate_diff.Unsupported, translate_validate.Unsupported, translate_common.Unsupported,
            StopIteration, SyntaxError, KeyError, IndexError, AttributeError)
 
     def piece(name, path, gen, stub_import=None):
@@ -832,6 +833,7 @@ def main():
     piece("driver", "DriverGen.lean", lambda: translate_driver.generate(rd("ccubes.py"), rd("xcubes.py")), "CatiiModel.Sched")
     piece("marginal_diff", "DiffGen.lean", lambda: translate_diff.generate(rd("ccubes.py")), "CatiiModel.Cube")
     piece("validate", "ValidateGen.lean", lambda: translate_validate.generate(rd("iindexes.py")), "CatiiModel.IIndex")
+    piece("choose_common", "CommonGen.lean", lambda: translate_common.generate(rd("iindexes.py")), "CatiiModel.IIndex")
     return 3 if failed else 0
 
 
